@@ -1,5 +1,6 @@
 import CCT.Props.C09
 import CCT.Props.C05
+import CCT.Props.C04
 /-!
 # C11 — repodata artifact signing is complete, faithful and client-verifiable
 
@@ -148,5 +149,20 @@ theorem signRepo_idempotent (C : CryptoFns) (top : List (PStr × J)) (keyHex : P
       dictGet (ps! "packages.conda") top := by rw [dictGet_dictSet_other _ _ _ (by decide)]
   rw [signRepo_ok C _ keyHex hk arts arts2 e1 (by rw [e2]; exact h2)]
   rw [dictSet_overwrite]
+
+/-- **the whole chain of authority behind an accepted artifact**: a client that starts from root `init`, replaces its root only by updates the
+library accepts, accepts `km` as `key_mgr` metadata under the root it then holds, and accepts an artifact envelope under `km`'s `pkg_mgr`
+delegation has — at every link — threshold-many distinct keys named by the *previous* link with valid signatures: the root is reached from
+`init` by properly signed single-version steps (C04), `km` meets the root's `key_mgr` rule, the artifact meets `km`'s `pkg_mgr` rule -/
+theorem chain_of_authority (C : CryptoFns) (init : J) (offers : List J) (km env : J)
+    (h1 : verifyDelegationJ C (ps! "key_mgr") km (C04.run C init offers) false = .ok ())
+    (h2 : verifyDelegationJ C (ps! "pkg_mgr") env km false = .ok ()) :
+    C04.Chain C init (C04.run C init offers) ∧
+    (∃ d1, roleOf (C04.run C init offers) (ps! "key_mgr") = some d1 ∧ RuleMet C false d1 km) ∧
+    (∃ d2, roleOf km (ps! "pkg_mgr") = some d2 ∧ RuleMet C false d2 env) ∧
+    ¬ TypeMismatch (ps! "key_mgr") km ∧ ¬ TypeMismatch (ps! "pkg_mgr") env := by
+  obtain ⟨_, _, m1, d1, r1, q1⟩ := (C05.verifyDelegation_iff C _ km _ false).mp h1
+  obtain ⟨_, _, m2, d2, r2, q2⟩ := (C05.verifyDelegation_iff C _ env km false).mp h2
+  exact ⟨C04.chain_integrity C init offers, ⟨d1, r1, q1⟩, ⟨d2, r2, q2⟩, m1, m2⟩
 
 end CCT.C11
